@@ -149,6 +149,39 @@ def compare(base, tr, scale, unit, backend, n):
     return out
 
 
+def build_multi(v, backend, perm, unit):
+    """MultiFit of two straight lines sharing the slope, with one shared (correlated) y uncertainty and one own source each"""
+    import kafe2
+
+    val = V(v, N)
+    pi = np.array(perm)
+    src0 = "def m0(x, a=%r, b=%r):\n    return a * x + b\n" % (1.0 * unit, 0.5 * unit)
+    src1 = "def m1(x, a=%r, c=%r):\n    return a * x + c\n" % (1.0 * unit, 2.0 * unit)
+    ns = {}
+    exec(src0, ns)
+    exec(src1, ns)
+    x0, x1 = val.x[pi], val.x_alt[pi]
+    y0 = ((1.05 * val.x + 0.45) + 0.3 * val.noise)[pi] * unit
+    y1 = ((1.05 * val.x_alt + 1.9) - 0.25 * val.noise[::-1])[pi] * unit
+    with warnings.catch_warnings():
+        warnings.simplefilter("ignore")
+        f0 = kafe2.XYFit([x0, y0], ns["m0"], minimizer=backend)
+        f1 = kafe2.XYFit([x1, y1], ns["m1"], minimizer=backend)
+        f0.add_error("y", val.ey[pi] * unit)
+        f1.add_error("y", val.ey2[pi] * unit)
+        m = kafe2.MultiFit([f0, f1], minimizer=backend)
+        m.add_error(0.15 * unit, fits="all", axis="y", correlation=val.rho)
+        m.do_fit()
+        names = list(m.parameter_names)
+        C = np.asarray(m.parameter_cov_mat, dtype=float)
+        return dict(
+            vals=dict(zip(names, np.asarray(m.parameter_values, dtype=float))),
+            errs=dict(zip(names, np.asarray(m.parameter_errors, dtype=float))),
+            cov={(a, b): C[i, j] for i, a in enumerate(names) for j, b in enumerate(names)},
+            gof=float(m.goodness_of_fit), ndf=int(m.ndf), prob=float(m.chi2_probability), cost=float(m.cost_function_value),
+        )
+
+
 def orders(npar, tier):
     allp = list(itertools.permutations(range(npar)))
     if tier == "quick" and npar > 3:
@@ -193,6 +226,8 @@ def jobs(tier, seed):
                 nsh = 1 if tier == "quick" else 4
                 for sh in range(nsh):
                     specs.append((name, backend, vv, tier, sh, nsh))
+        for backend in ("iminuit", "scipy"):
+            specs.append(("multi-shared", backend, vv, tier, 0, 1))
     return specs
 
 
@@ -205,6 +240,10 @@ def bound(tier, seed):
 def run_case(name, backend, v, perm, order, unit):
     import inspect
 
+    if name == "multi-shared":
+        base = build_multi(v, backend, list(range(N)), 1.0)
+        return compare(base, build_multi(v, backend, perm, unit), {k: unit for k in "abc"}, unit, backend, 2 * N)
+
     npar = len(inspect.signature(ref.MODELS[PROBLEMS[name]["model"]]).parameters) - 1
     f0, on0, sc0 = build(name, v, backend, list(range(N)), tuple(range(npar)), 1.0)
     b = summary(f0, on0, sc0)
@@ -213,8 +252,40 @@ def run_case(name, backend, v, perm, order, unit):
     return compare(b, t, sc1, unit, backend, N)
 
 
+def run_multi_job(spec):
+    name, backend, v, tier, shard, nshard = spec
+    res = JobResult()
+    idn = list(range(N))
+    base = build_multi(v, backend, idn, 1.0)
+    res.executions += 1
+    scale = {"a": None, "b": None, "c": None}
+    trs = [(pn, p, 1.0) for pn, p in perms(tier)[1:4]] + [("id", idn, u) for u in (1e-3, 7.0, 1e3)] + [("shuffle", dict(perms(tier))["shuffle"], 7.0)]
+    for pn, perm, unit in trs:
+        hist = [dict(name=name, backend=backend, v=v, perm=list(perm), order=[0, 1, 2], unit=unit)]
+        try:
+            t = build_multi(v, backend, perm, unit)
+            bad = compare(base, t, {k: unit for k in scale}, unit, backend, 2 * N)
+        except Exception as e:  # noqa: BLE001
+            bad = [("do_fit", "no exception", "%s: %s" % (type(e).__name__, str(e)[:120]), "exception:" + type(e).__name__)]
+        res.executions += 1
+        res.transitions += 10
+        res.evaluations += 10
+        key = (name, backend, v, pn, unit)
+        res.state(key)
+        res.nontriv(key)
+        res.observe((key, len(bad)))
+        res.outcomes[(name, backend, "perm" if pn != "id" else "unit", "ok" if not bad else "VIOLATION")] += 1
+        res.facts["transform:multi"] += 1
+        for o, e, a, m in bad:
+            res.violation("%s/%s|perm=%s|order=012|unit=%g" % (name, backend, pn, unit), hist, o, e, a, m)
+    res.sample(dict(problem=name, backend=backend, transformations=len(trs)))
+    return res.as_dict()
+
+
 def run_job(spec):
     name, backend, v, tier, shard, nshard = spec
+    if name == "multi-shared":
+        return run_multi_job(spec)
     res = JobResult()
     trs = [t for i, t in enumerate(transformations(name, tier)) if i % nshard == shard]
     import inspect
